@@ -1,20 +1,23 @@
 #!/bin/bash
 # usage: try-patch.sh <patch.diff> <tier> <prop> [<prop>...]
-# Applies a patch to /repo's working tree, runs the given checks, and ALWAYS restores /repo afterwards.
+# Runs the given checks against a scratch worktree of /repo HEAD with the patch applied (the checks are
+# pointed at it with VERIF_REPO; /repo itself is not touched). The worktree is removed afterwards.
 # Prints one line per property: DETECTED / missed.
 set -u
 PATCH=$(readlink -f "$1"); TIER=$2; shift 2
-cd /repo || exit 2
-if ! git diff --quiet; then echo "/repo working tree is not clean"; exit 2; fi
-trap 'git -C /repo checkout -- . ' EXIT
-git apply "$PATCH" || { echo "patch does not apply: $PATCH"; exit 2; }
+WT=/tmp/trypatch/wt$$
+mkdir -p /tmp/trypatch
+git -C /repo worktree add -q --detach "$WT" HEAD || exit 2
+trap 'git -C /repo worktree remove --force "$WT" >/dev/null 2>&1; rm -rf "$WT"' EXIT
+git -C "$WT" apply "$PATCH" || { echo "patch does not apply: $PATCH"; exit 2; }
 for P in "$@"; do
-  out=$(/verif/bin/check "$P" --tier "$TIER" 2>&1); rc=$?
+  out=$(VERIF_REPO="$WT" VERIF_EVIDENCE_DIR=/tmp/trypatch/ev$$ VERIF_REPLAY_DIR=/tmp/trypatch/rp$$ /verif/bin/check "$P" --tier "$TIER" 2>&1); rc=$?
   nv=$(echo "$out" | grep -c '^VIOLATION')
   if [ $rc -eq 1 ] && [ "$nv" -gt 0 ]; then
      echo "DETECTED $P rc=$rc violations=$nv :: $(echo "$out" | grep -m1 'signature:' )"
-     echo "$out" | grep -m1 -A0 'detail:' | cut -c1-400
+     echo "$out" | grep -m1 -A0 'detail:' | cut -c1-500
   else
      echo "missed   $P rc=$rc :: $(echo "$out" | tail -1 | cut -c1-200)"
   fi
 done
+rm -rf /tmp/trypatch/ev$$ /tmp/trypatch/rp$$
